@@ -10,6 +10,7 @@ import (
 	"strconv"
 	"strings"
 	"sync"
+	"sync/atomic"
 
 	"github.com/elastic/go-libaudit/v2/aucoalesce"
 	"github.com/elastic/go-libaudit/v2/auparse"
@@ -692,6 +693,65 @@ func c20Use(c *mon.Ctx) {
 	}
 }
 
+// c20ConcurrentNaming: records of different architectures are parsed at the same time, one goroutine per
+// architecture; every (arch, syscall number) must come out under the name of ITS architecture's table, exactly as
+// in the sequential enumeration.
+func c20ConcurrentNaming(c *mon.Ctx) {
+	type archT struct {
+		code  uint32
+		name  string
+		table map[int]string
+	}
+	var arches []archT
+	for code, name := range auparse.AuditArchNames {
+		if t := auparse.AuditSyscalls[name]; len(t) > 0 {
+			arches = append(arches, archT{uint32(code), name, t})
+		}
+	}
+	sort.Slice(arches, func(i, j int) bool { return arches[i].code < arches[j].code })
+	var wg sync.WaitGroup
+	var bad, total atomic.Int64
+	start := make(chan struct{})
+	reps := c.Pick(6, 60)
+	for _, a := range arches {
+		wg.Add(1)
+		go func(a archT) {
+			defer wg.Done()
+			nums := make([]int, 0, len(a.table))
+			for n := range a.table {
+				nums = append(nums, n)
+			}
+			sort.Ints(nums)
+			<-start
+			for rep := 0; rep < reps; rep++ {
+				for _, n := range nums {
+					typ := auparse.AUDIT_SYSCALL
+					if (n+rep)%5 == 0 {
+						typ = auparse.AUDIT_SECCOMP
+					}
+					msg := fmt.Sprintf("audit(1500000000.100:%d): arch=%x syscall=%d success=yes exit=0 sig=31 pid=1", n, a.code, n)
+					m, err := auparse.Parse(typ, msg)
+					if err != nil {
+						continue
+					}
+					d, err := m.Data()
+					total.Add(1)
+					if err != nil || d["arch"] != a.name || d["syscall"] != a.table[n] {
+						if bad.Add(1) <= 3 {
+							c.Violation("syscall-name-concurrent", fmt.Sprintf("while %d goroutines parse records of different architectures: arch=%x syscall=%d came out as arch=%q syscall=%q (err %v); %s's table says %s", len(arches), a.code, n, d["arch"], d["syscall"], err, a.name, a.table[n]), msg)
+						}
+						return
+					}
+				}
+			}
+		}(a)
+	}
+	close(start)
+	wg.Wait()
+	c.Add("evaluations", total.Load())
+	c.Add("arch_syscall_pairs_parsed_concurrently", total.Load())
+}
+
 // c20Run: the exhaustive table checks on the cold process, then a workload of lookups that miss the tables,
 // then the same exhaustive checks again: the tables must be the same tables (no entry added, changed or
 // removed by use) and still mutually inverse.
@@ -723,12 +783,13 @@ func c20Run(c *mon.Ctx) {
 	c.Add("table_snapshots_compared", int64(len(names)))
 	c20Pass(c)
 	c.Add("exhaustive_passes", 2)
+	c20ConcurrentNaming(c)
 }
 
 func init() {
 	register(&mon.CheckSpec{
 		ID: "C20", Level: "exploration", Exhaustive: true,
-		Rule: "EXHAUSTIVE enumeration at run time of: all 65536 record type codes (name -> number -> name in three letter cases, text marshalling, unique names, repeated and concurrent categorisation); both errno maps in both directions (aliases resolve to one number; cross-checked with x/sys/unix); every architecture name <-> code (unique, String(), the rule package's reverse table, linux/audit.h spot table, and through Build/ToCommandLine with = and !=); every (arch, syscall) entry (a name maps to one number, the rule package's reverse table, and a rule '-F arch=A -S name' sets exactly that bit and round-trips); every rule field / operator / comparison table entry (verif export hook) against linux/audit.h in both directions; every entry of normalizations.yaml (read from /repo, loaded with the exported loader and walked independently as a YAML node tree): record types resolve and print back identically, syscalls occur in at least one arch table, nothing listed twice, every record type selects the same normalisation on repeated evaluation for every subset of its has_fields, and a record type with several conditional normalisations selects the one whose has_fields the record carries (none when it carries none). Compound events of every named first record type with different syscalls are coalesced one after the other and re-checked afterwards (the shared table entries must not be written). The whole enumeration runs twice: on the cold process, and again after a workload of lookups that MISS the tables (unknown architectures, syscall numbers, record types, errno values and names through the parser, the coalescer and the rule encoder/decoder); deep copies of the exported tables taken before and after must be equal. distinct_nontrivial = distinct named table entries visited.",
+		Rule: "EXHAUSTIVE enumeration at run time of: all 65536 record type codes (name -> number -> name in three letter cases, text marshalling, unique names, repeated and concurrent categorisation); both errno maps in both directions (aliases resolve to one number; cross-checked with x/sys/unix); every architecture name <-> code (unique, String(), the rule package's reverse table, linux/audit.h spot table, and through Build/ToCommandLine with = and !=); every (arch, syscall) entry (a name maps to one number, the rule package's reverse table, and a rule '-F arch=A -S name' sets exactly that bit and round-trips); every rule field / operator / comparison table entry (verif export hook) against linux/audit.h in both directions; every entry of normalizations.yaml (read from /repo, loaded with the exported loader and walked independently as a YAML node tree): record types resolve and print back identically, syscalls occur in at least one arch table, nothing listed twice, every record type selects the same normalisation on repeated evaluation for every subset of its has_fields, and a record type with several conditional normalisations selects the one whose has_fields the record carries (none when it carries none). Compound events of every named first record type with different syscalls are coalesced one after the other and re-checked afterwards (the shared table entries must not be written). The whole enumeration runs twice: on the cold process, and again after a workload of lookups that MISS the tables (unknown architectures, syscall numbers, record types, errno values and names through the parser, the coalescer and the rule encoder/decoder); deep copies of the exported tables taken before and after must be equal. Finally one goroutine per architecture parses SYSCALL/SECCOMP records of every syscall number of its table at the same time: every pair must come out under its own architecture's name. distinct_nontrivial = distinct named table entries visited.",
 		Assumptions: []string{
 			"the tables are read through the exported maps/functions and the verif export hook at run time, so the check sees what the build contains",
 			"normalizations.yaml is read from the repository tree that the harness is built against (it is embedded from the same file)",
